@@ -5,6 +5,8 @@ local function attempt(name, f)
   local ok, res = pcall(f)
   if ok and res then return name .. "=ok" else return name .. "=blocked" end
 end
+-- captured by the top-level chunk, before `validate` is fetched and called
+local t_dofile, t_loadfile, t_io, t_os, t_require, t_package, t_debug = dofile, loadfile, io, os, require, package, debug
 function validate(ctx, content)
   local side = content
   local r = {}
@@ -36,5 +38,12 @@ function validate(ctx, content)
   r[#r + 1] = attempt("math", function() return math.max(1, 2) == 2 end)
   r[#r + 1] = attempt("utf8", function() return utf8.char(233) ~= nil end)
   r[#r + 1] = attempt("table", function() return table.concat({ "a", "b" }) == "ab" end)
+  r[#r + 1] = attempt("top.dofile", function() return t_dofile(side) == 42 end)
+  r[#r + 1] = attempt("top.loadfile", function() local f = t_loadfile(side); return f ~= nil and f() == 42 end)
+  r[#r + 1] = attempt("top.io.open", function() local f = t_io.open(side, "r"); return f ~= nil end)
+  r[#r + 1] = attempt("top.os.execute", function() return t_os.execute("true") end)
+  r[#r + 1] = attempt("top.require-os", function() return t_require("os") ~= nil end)
+  r[#r + 1] = attempt("top._G.package", function() return t_package ~= nil end)
+  r[#r + 1] = attempt("top._G.debug", function() return t_debug ~= nil end)
   return table.concat(r, ";")
 end
